@@ -31,6 +31,54 @@ func TestGovcReplay(t *testing.T) {
 }
 `
 
+const c03GrowthReplay = `package patch
+
+import (
+	"testing"
+
+	"github.com/tencent/goom/internal/arch/x86asm"
+)
+
+// cmp rsp,[r14+0x10]; jbe +0x30 (outside the copied prefix -> widened); lea rax,[rip+0x1000]; ret; padding
+func TestGovcReplay(t *testing.T) {
+	block := []byte{0x49, 0x3B, 0x66, 0x10, 0x76, 0x30, 0x48, 0x8D, 0x05, 0x00, 0x10, 0x00, 0x00, 0xC3}
+	for len(block) < 64 {
+		block = append(block, 0xCC)
+	}
+	from, tramp := uintptr(0x500000), uintptr(0x600000)
+	fixed, size, err := fixBlock(from, block, tramp, 13, 13)
+	if err != nil {
+		t.Skip(err)
+	}
+	// walk the relocated code and compare the absolute target of every PC-relative operand
+	want := map[int]int64{4: int64(from) + 6 + 0x30, 6: int64(from) + 13 + 0x1000}
+	in, out := 0, 0
+	for in < size {
+		oi, _ := x86asm.Decode(block[in:], 64)
+		ni, err := x86asm.Decode(fixed[out:], 64)
+		if err != nil {
+			t.Fatalf("relocated code does not decode at %d: % x", out, fixed)
+		}
+		if w, ok := want[in]; ok {
+			d := int64(0)
+			f := fixed[out+ni.PCRelOff : out+ni.PCRelOff+ni.PCRel]
+			switch ni.PCRel {
+			case 1:
+				d = int64(int8(f[0]))
+			case 4:
+				d = int64(int32(uint32(f[0]) | uint32(f[1])<<8 | uint32(f[2])<<16 | uint32(f[3])<<24))
+			}
+			got := int64(tramp) + int64(out) + int64(ni.Len) + d
+			if got != w {
+				t.Errorf("instruction at input offset %d (%v) relocated to output offset %d: target %#x, want %#x (off by %d)", in, oi.String(), out, got, w, got-w)
+			}
+		}
+		in += oi.Len
+		out += ni.Len
+	}
+}
+`
+
 const c03Rel16Replay = `package bytecode
 
 import "testing"
@@ -53,6 +101,8 @@ func init() {
 		Trusted: []string{"x86asm.Decode contract (C16: bounded stand-in)", "|from - trampoline| < 2^31 and targets within one image (Go linker limit for amd64 text)", "package initialisers ran (opExpand contents)", "fixRelativeAddr/fixBlock/checkJumpBetween stream-level behaviour (two passes stop at the same boundary; branch-back check) is a trusted contract, not proved"},
 		Replay: func(o *Options, g *groupResult, model map[string]string) (string, string, bool) {
 			switch {
+			case strings.HasPrefix(g.name, "internal/patch.fixBlock#"):
+				return "internal/patch", c03GrowthReplay, true
 			case strings.HasPrefix(g.name, "internal/patch.fixIns#"):
 				return "internal/patch", c03SuffixReplay, true
 			case strings.HasPrefix(g.name, "internal/bytecode.EncodeAddress#"):
